@@ -18,6 +18,7 @@ import nfc.clf.device
 from env import crc as crcref
 from env.hostlink import Fault
 from env.drivers import make_device, make_frontend, MODEL
+from symx.runner import exc_label
 
 PROPERTY = "C13"
 
@@ -235,6 +236,11 @@ def classify(e):
     return None
 
 
+def site(e):
+    """ExceptionType@module:function of the innermost nfc frame"""
+    return exc_label(e)[len("uncaught:"):]
+
+
 def cmdname(driver, link):
     if not link.commands:
         return "none"
@@ -265,7 +271,8 @@ def exchange(sx, driver, kind, fault, nmax=6, plen=3):
         f = Fault(at, fk, ERRNOS[arg] if fk in 'war' else arg)
     sc = Script(sx, driver, kind, symbolic=(f is None), plen=plen)
     link.begin(chip=sc.rcs if MODEL[driver] == 'rcs380' else sc.pn, fault=f)
-    tag = "%s:%s" % (driver, kind)
+    tag = "%s:%s:%s" % ("initiator" if kind in INITIATOR else "target",
+                        driver, kind)
     try:
         data = clf.exchange(send, timeout)
         out = "data" if data is not None else "None"
@@ -274,8 +281,9 @@ def exchange(sx, driver, kind, fault, nmax=6, plen=3):
         out = classify(e)
         if out is None:
             # a driver-internal (or any undocumented) exception type escaped
-            sx.check(False, "escaped:%s:%s:after=%s" % (
-                type(e).__name__, tag, cmdname(driver, link)))
+            sx.check(False, "escaped:%s:%s:after=%s:fault=%s" % (
+                site(e), tag, cmdname(driver, link),
+                f.kind if f is not None else "none"))
     if f is not None and not link.fault_hit:
         # the exchange has fewer host commands than the picked index
         sx.reach("fault-index-beyond-exchange")
@@ -300,6 +308,15 @@ def exchange(sx, driver, kind, fault, nmax=6, plen=3):
     return out
 
 
+def good(code, v):
+    """success reading of one status value"""
+    if code == 0x40:
+        # InDataExchange: bit 7 NAD present, bit 6 more information, bits 5..0
+        # error code (PN532 UM 7.3.8)
+        return (v & 0x3F) == 0
+    return v == 0
+
+
 def all_zero(sx, sc):
     conds = []
     for idx, code, v in sc.status:
@@ -308,7 +325,7 @@ def all_zero(sx, sc):
         if isinstance(v, list):
             conds += [b == 0 for b in v]
         else:
-            conds.append(v == 0)
+            conds.append(good(code, v))
     return sx.all(conds)
 
 
@@ -343,7 +360,7 @@ def judge_pn53x(sx, sc, kind, out, data, tag):
     if not rf:
         return
     idx, code, st = rf[-1]
-    prep_ok = sx.all([v == 0 for i, c, v in sc.status
+    prep_ok = sx.all([good(c, v) for i, c, v in sc.status
                       if (i, c) != (idx, code) and c != 'irq'])
     if kind in INITIATOR:
         if out != "TimeoutError":
@@ -495,7 +512,7 @@ def udp_exchange(sx, role):
         except Exception as e:
             out = classify(e)
             if out is None:
-                sx.check(False, "escaped:%s:%s:dgram=%s" % (type(e).__name__, tag, name))
+                sx.check(False, "escaped:%s:%s:dgram=%s" % (site(e), tag, name))
         sx.reach("udp:" + out)
         if out == "IOError" and not script['fault']:
             sx.check(False, "ioerror-without-socket-fault:" + tag)
@@ -514,23 +531,34 @@ def udp_exchange(sx, role):
 
 
 # ----------------------------------------------------------------------------
+QUICK = {
+    # driver: {kind: fault classes}; the full product runs in the thorough tier
+    'pn532': None,          # everything
+    'rcs380': None,
+    'pn533': {'tt2': 'nif', 'tt1': 'n', 'tt1-read8': 'n', 'ltt2': 'n', 'ltt3': 'nif'},
+    'pn531': {'tt2': 'nif', 'ttf': 'n', 'ldep': 'n', 'ltt3': 'n'},
+    'rcs956': {'tt2': 'nif', 'tt1': 'n', 'ttb': 'n', 'ltt2': 'n'},
+    'acr122': {'tt2': 'nif', 'ttb': 'n', 'dep-passive': 'n'},
+    'arygonA': {'tt2': 'ni'},
+    'arygonB': {'tt2': 'ni'},
+}
+
+
 def partitions(tier):
     q = tier == "quick"
     parts = []
     for d in PN + ['rcs380']:
         for k in kinds_for(d, tier):
-            if q and d in ('arygonA', 'arygonB') and k not in ('tt2', 'ldep', 'ltt3'):
-                continue                # same chipset classes as pn531/pn532
+            sel = 'nif'
+            if q and QUICK[d] is not None:
+                sel = QUICK[d].get(k, '')
             nmax = dict(ltt3=8).get(k, 6)
             if k == 'tt1-read8':
                 nmax = 20
             if k == 'tt1-rseg':
-                nmax = 19
-            faults = ['none', 'io', 'frame']
-            for f in faults:
-                if q and f != 'none' and k in ('tt4a', 'ttb', 'dep-active', 'ldep-recv', 'tt1-rseg'):
-                    continue            # same host command sequence as tt2/ttf/ldep
-                if k == 'tt1-rseg' and f != 'none':
+                nmax, sel = 19, 'n'
+            for f in ('none', 'io', 'frame'):
+                if f[0] not in sel:
                     continue
                 plen = 3
                 if k == 'tt2':
@@ -538,7 +566,7 @@ def partitions(tier):
                 parts.append(dict(name="%s:%s:%s" % (d, k, f), fn="exchange",
                                   params=dict(driver=d, kind=k, fault=f,
                                               nmax=nmax, plen=plen)))
-            if k == 'tt2':
+            if k == 'tt2' and 'n' in sel:
                 parts.append(dict(name="%s:%s:acknak" % (d, k), fn="exchange",
                                   params=dict(driver=d, kind=k, fault='none',
                                               nmax=6, plen=1)))
